@@ -1,6 +1,7 @@
 package rules
 
 import (
+	"strings"
 	"fmt"
 	"go/ast"
 	"go/constant"
@@ -285,6 +286,39 @@ func runLS2PL(c *core.Ctx) {
 			return true
 		})
 		c.Check(acq == rel, "localShared.GetState:paired", fn.Pos(), "acquire/release are paired", "GetState does not pair acquire() with release()")
+		// the lock is taken by GetState exactly when this sharer does not hold it already (else: self-deadlock, or an unlocked read)
+		g := e.Graph(fn)
+		if hasLock := mustField(c, e.Ix.LookupType(an.PkgResources, "localShared"), "hasLock"); hasLock != nil {
+			for _, a := range g.FindAtoms(func(a ast.Node) bool {
+				call, ok := a.(*ast.CallExpr)
+				return ok && an.CalleeFunc(info, call) == acquire.Obj
+			}) {
+				guarded := false
+				for _, blk := range g.CFG.Blocks {
+					cd, _ := g.Cond(blk)
+					if cd == nil {
+						continue
+					}
+					ex := ast.Expr(cd)
+					neg := false
+					for {
+						ex = an.Unparen(ex)
+						u, isU := ex.(*ast.UnaryExpr)
+						if !isU || u.Op != token.NOT {
+							break
+						}
+						neg = !neg
+						ex = u.X
+					}
+					if an.SelectedField(info, ex) == hasLock && g.GuardedBy(a, cd, neg) {
+						guarded = true
+					}
+				}
+				c.Check(guarded, "localShared.GetState:acquire-iff-not-held", a.Pos(), "acquire() only when hasLock is false",
+					"GetState acquires the lock on the branch where this sharer already holds it (self-deadlock) and reads the cell unlocked otherwise")
+				// the cell is read after the acquire on that branch: acquire dominates nothing else needed; the read happens on every path
+			}
+		}
 	}
 }
 
@@ -381,6 +415,40 @@ func runLSTimed(c *core.Ctx) {
 		}
 		return true
 	})
+	// the untimed primitives: acquire sends on lockCh, release receives from it, on every path
+	for _, prim := range []struct {
+		name string
+		send bool
+	}{{"acquire", true}, {"release", false}} {
+		pf := mustMethod(c, e, an.PkgResources, "LocalSharedManager", prim.name)
+		if pf == nil {
+			continue
+		}
+		pg := e.Graph(pf)
+		pi := pf.Pkg.Info
+		okp, _ := pg.MustPass(nil, func(a ast.Node) bool {
+			if prim.send {
+				ss, ok := a.(*ast.SendStmt)
+				return ok && an.SelectedField(pi, ss.Chan) == lockCh
+			}
+			u, ok := a.(*ast.UnaryExpr)
+			return ok && u.Op == token.ARROW && an.SelectedField(pi, u.X) == lockCh
+		}, nil)
+		opposite := pg.FindAtoms(func(a ast.Node) bool {
+			if !prim.send {
+				ss, ok := a.(*ast.SendStmt)
+				return ok && an.SelectedField(pi, ss.Chan) == lockCh
+			}
+			u, ok := a.(*ast.UnaryExpr)
+			return ok && u.Op == token.ARROW && an.SelectedField(pi, u.X) == lockCh
+		})
+		what := "receives from"
+		if prim.send {
+			what = "sends on"
+		}
+		c.Check(okp && len(opposite) == 0, "LocalSharedManager."+prim.name+":token", pf.Pos(), prim.name+" "+what+" lockCh on every path (and does nothing else with it)",
+			prim.name+" does not "+strings.TrimSuffix(strings.TrimSuffix(what, " on"), " from")+" the lock token on every path: the cell is read or written without mutual exclusion, or the lock is never given back")
+	}
 	c.Check(sendArm, "acquireWithTimeout:send-arm", sel.Pos(), "sending on lockCh acquires and returns true", "no arm sends on lockCh and returns true: the lock is never actually taken")
 	c.Check(timerArm, "acquireWithTimeout:timeout-arm", sel.Pos(), "a time.After(timeout) arm returns false", "no time.After(sv.timeout) arm returning false: acquisition is untimed, so opposite acquisition orders deadlock forever")
 	c.Check(!trueOutsideSend && !other, "acquireWithTimeout:true-only-when-acquired", sel.Pos(), "true is returned only from the send arm",
